@@ -746,6 +746,8 @@ class Interp:
                 raise Unsupported("state space of loop at line %d exceeds %d" % (node.lineno, self.max_states))
             # the sequence may end here
             exits.append((e0, r0, t0, w0))
+            if getattr(self, "max_word", None) is not None and len(w0) >= self.max_word:
+                continue          # bounded mode: sequences up to this length only
             for letter in items:
                 e1, r1 = self.client.bind(node, letter, dict(e0), r0)
                 for e2, r2, t2, w2, oc in self.block(node.body, e1, r1, t0, w0 + (letter,)):
